@@ -237,6 +237,12 @@ def run(case, ctx):
             ctx.label("first-attempt-raised")
         finally:
             ARMED[0] = False
+    # ---- an object that already provides the protocol is returned itself - also when that object is None
+    for proto in (object, type(None)):
+        got_none = mgr.adapt(None, proto, "<default>")
+        if got_none is not None:
+            ctx.fail("adapt/provides", "adapt(None, %s, default) returns %r although None already provides %s: %s"
+                     % (proto.__name__, got_none, proto.__name__, desc))
     # ---- the implementation
     mode = case["mode"]
     sentinel = object()
